@@ -5,4 +5,5 @@ package configloader
 var verifHarnesses = map[string]func(){
 	"VerifH_C19_B_layering":  VerifH_C19_B_layering,
 	"VerifH_C19_C_configmap": VerifH_C19_C_configmap,
+	"VerifH_C19_D_secret":    VerifH_C19_D_secret,
 }
